@@ -164,12 +164,18 @@ SAMPLE_COLS = ["chromosome", "start", "end", "gene", "log2", "depth"]
 DTYPES = {"chromosome": "object", "start": "int64", "end": "int64", "gene": "object"}
 
 
-def to_cna(bins, cols, sample_id):
+def to_cna(bins, cols, sample_id, shifted=False):
+    """shifted: the same rows with row labels 1..n (a longer table minus its first row, as a filtered array has)."""
     cols = [c for c in cols if not bins or c in bins[0]]
     if not bins:
         cols = [c for c in cols if c not in ("gc", "rmask", "spread")]
+    if shifted and bins:
+        bins = [bins[0]] + list(bins)
     data = {c: pd.Series([b[c] for b in bins], dtype=DTYPES.get(c, "float64")) for c in cols}
-    return CNA(pd.DataFrame(data, columns=cols), {"sample_id": sample_id})
+    df = pd.DataFrame(data, columns=cols)
+    if shifted and bins:
+        df = df.iloc[1:]
+    return CNA(df, {"sample_id": sample_id})
 
 
 def rows_out(res):
@@ -220,14 +226,16 @@ def variants_for(spec, nt, na, nr):
         out.append(("sample-rows-permuted", "both:rev", list(range(nt))[::-1], list(range(na))[::-1], None, 1))
     for name, p in perms(nr, spec.get("rperm", "none")).items() if spec.get("rperm") else []:
         out.append(("reference-rows-permuted", "reference:" + name, None, None, p, 1))
+    if spec.get("relabel"):
+        out.append(("row-labels-shifted", "labels-1..n", None, None, None, 1))
     return out
 
 
 VARIANTS = {
     "none": {},
-    "lite": {"tperm": "one", "rperm": "one"},
-    "std": {"scale": [0.5, 3], "tperm": "std", "aperm": "std", "bothperm": True, "rperm": "std"},
-    "rot": {"scale": [0.5, 3, 8], "tperm": "rot", "aperm": "all", "bothperm": True, "rperm": "rot"},
+    "lite": {"tperm": "one", "rperm": "one", "relabel": True},
+    "std": {"scale": [0.5, 3], "tperm": "std", "aperm": "std", "bothperm": True, "rperm": "std", "relabel": True},
+    "rot": {"scale": [0.5, 3, 8], "tperm": "rot", "aperm": "all", "bothperm": True, "rperm": "rot", "relabel": True},
     "tall": {"tperm": "all"},
     "aall": {"aperm": "all"},
 }
@@ -395,10 +403,10 @@ def run(case, ctx):
     raise ValueError(kind)
 
 
-def do_fix(ctx, tgt, anti, ref, corr, frac):
-    t = to_cna(tgt, SAMPLE_COLS, "sample")
-    a = to_cna(anti, SAMPLE_COLS, "sample")
-    r = to_cna(ref, REF_COLS, "reference")
+def do_fix(ctx, tgt, anti, ref, corr, frac, shifted=False):
+    t = to_cna(tgt, SAMPLE_COLS, "sample", shifted)
+    a = to_cna(anti, SAMPLE_COLS, "sample", shifted)
+    r = to_cna(ref, REF_COLS, "reference", shifted)
     return ctx.call(
         FIX.do_fix, t, a, r, do_gc="gc" in corr, do_edge="edge" in corr, do_rmask="rmask" in corr, smoothing_window_fraction=frac
     )
@@ -471,7 +479,7 @@ def explore(ctx, case, bad, drop, sub0=None):
             vsub = dict(sub, variant=vname, order=tp or ap or rp, scale=scale)
             if tp and ap:
                 vsub["order"] = [tp, ap]
-            res2 = do_fix(ctx, t2, a2, r2, corr, frac)
+            res2 = do_fix(ctx, t2, a2, r2, corr, frac, shifted=vkind == "row-labels-shifted")
             ctx.state((case, sub, vname), nontrivial=True)
             ctx.stratum("variant/" + vkind)
             got = judge(ctx, res2, exp, info, vkind, vsub, bfeat, afeat, aname, one_bin, zero, full=False)
